@@ -7,6 +7,9 @@ pub struct ExErrorKind(std::io::ErrorKind);
 #[verifier::external_type_specification]
 #[verifier::external_body]
 pub struct ExIoError(std::io::Error);
+// ErrorKind's derived `==` (assumed): equal iff the same variant
+pub assume_specification[ <std::io::ErrorKind as PartialEq<std::io::ErrorKind>>::eq ](a: &std::io::ErrorKind, b: &std::io::ErrorKind) -> (r: bool)
+    ensures r == (*a == *b);
 pub uninterp spec fn io_kind(e: std::io::Error) -> std::io::ErrorKind;
 pub assume_specification[ std::io::Error::kind ](e: &std::io::Error) -> (k: std::io::ErrorKind)
     ensures k == io_kind(*e);
